@@ -52,6 +52,12 @@ def run(ctx):
             c = callee_of(t)
             if c in STAGES or c in sa.may:
                 bad.append((b, c))
+                continue
+            # a closure / fn item the callee may invoke (lazy `map(|s| s.emit())` consumed after the open)
+            for cl in t["f"].get("closures", []):
+                nm = cl[3:] if cl.startswith("fn:") else cl
+                if nm in STAGES or nm in sa.may:
+                    bad.append((b, nm))
         ctx.oblig(not bad, {"open": sp_file_line(main.term(ob).get("sp")), "fallible_calls_after": len(bad)},
                   "no stage-reaching call reachable from the open site")
         for b, c in bad:
